@@ -190,6 +190,7 @@ def shard(job) -> dict:
     acc = pool.Acc()
     hist: dict = {}
     worst = 0.0
+    slow_cases = 0
 
     def cases():
         if fam == "e1":
@@ -213,6 +214,8 @@ def shard(job) -> dict:
             hist[v] = hist.get(v, 0) + 1
         if any(v != "ok" for v in outcomes.values()) or not outcomes:
             acc.nontrivial += 1
+        if kind in ("hang", "slow"):
+            slow_cases += 1
         if kind:
             acc.violation({"fail": kind, "family": label.split(":")[0]},
                           f"{label}: {detail} on input {data[:48].hex()}{'...' if len(data) > 48 else ''}"
@@ -221,7 +224,10 @@ def shard(job) -> dict:
                            "thorough": thorough})
         elif detail.endswith("ms"):
             worst = max(worst, float(detail[:-2]))
-    acc.extra = {"hist": hist, "worst_ms": worst}
+        if slow_cases >= 3:
+            acc.extra["aborted"] = True  # every further case would burn the time budget
+            break
+    acc.extra.update({"hist": hist, "worst_ms": worst})
     acc.sample({"family": fam, "example": (data[:24].hex() if acc.evals else "")}, cap=1)
     return acc.out()
 
@@ -305,7 +311,8 @@ def run(ctx) -> None:
         distinct_nontrivial=merged["nontrivial"],
         outcome_histogram=hist,
         worst_case_ms=max((e.get("worst_ms", 0) for e in merged["extras"]), default=0),
-        exhaustive=not ctx.coverage.get("aborted_after_hang", False),
+        exhaustive=not ctx.coverage.get("aborted_after_hang", False)
+        and not any(e.get("aborted") for e in merged["extras"]),
         samples=merged["samples"] or [{"note": "aborted"}],
         rule=(
             "E1: every byte string of length<=2 (all 256 values) and of length 3.."
